@@ -1,5 +1,6 @@
 import HeraProofs.Props.C17
 import HeraProofs.Props.C07
+import HeraProofs.Props.C07b
 open Hera
 #print axioms C17_token_in_quoted_line
 #print axioms C17_caret
@@ -9,3 +10,5 @@ open Hera
 #print axioms splitLines_get
 #print axioms C17_position_only_next_char
 #print axioms C17_token_is_text_at_offset
+#print axioms tokenAt_off
+#print axioms C17_offsets_in_order
